@@ -470,4 +470,36 @@ def generate(src):
     tree = src.tree(REL); kills = [n for n in ast.walk(tree) if isinstance(n, ast.Call) and ast.unparse(n.func) in ('os.kill', 'os.killpg', 'signal.pthread_kill')]
     unseen = [f"line {n.lineno}" for n in kills if (n.lineno, n.col_offset) not in kill_sites_seen]
     oblige(sw, "process_manager/frame: every os.kill call site of the file is one the manager reaches only through the shutdown branch of start() (where its target, multiplicity and liveness are obligations)  [C18]", BoolVal(not unseen), props=['C18'])
+    # =====================================================================  run_worker: the only caller of start() - it builds ONE manager, starts it ONCE and hands its status on  [C17/C18]
+    RW = src.func('taskiq/cli/worker/run.py', 'run_worker')
+    idx = [i for i, s_ in enumerate(RW.body) if isinstance(s_, ast.Assign) and isinstance(s_.value, ast.Call) and ast.unparse(s_.value.func) == 'ProcessManager']
+    if len(idx) != 1: raise Unsupported("run_worker: expected exactly one `<name> = ProcessManager(...)` statement at the top level of the function")
+    STATUS = fresh('status_of_start'); seenw = {'built': 0}
+    def h_PM(ex_, st_, e, r, a, kw, k, K):
+        seenw['built'] += 1
+        kwt = {x.arg: ast.unparse(x.value) for x in e.keywords}
+        oblige(st_, "run_worker/manager: built with the parsed arguments and start_listen as the worker function  [C17/C18]", BoolVal(bool(not e.args and kwt.get('args') == 'args' and kwt.get('worker_function') == 'start_listen')))
+        return k(st_, 'MANAGER')
+    class ExW(Exec):
+        def find_handler(self, name, recv=None):
+            if isinstance(recv, str) and recv == 'MANAGER':
+                meth = name.split('.')[-1]
+                if meth == 'start':
+                    def h(ex_, st_, e, r, a, kw, k, K): setG(st_, starts=st_.ghost['starts'] + 1); return k(st_, STATUS)
+                    return h
+                def h2(ex_, st_, e, r, a, kw, k, K):
+                    oblige(st_, f"run_worker/manager: nothing but start() is called on the manager (start() prepares the workers itself; `{name}` here would do it twice)  [C17/C18]", BoolVal(False)); return k(st_, fresh('x'))
+                return h2
+            return super().find_handler(name, recv)
+        def ev_Attribute(self, e, st_, k, K):
+            if ast.unparse(e).startswith(('args.', 'observer.')): return k(st_, fresh(ast.unparse(e).replace('.', '_')))
+            return super().ev_Attribute(e, st_, k, K)
+    exw = ExW({'ProcessManager': h_PM, 'logger.*': noop, 'logging.*': noop, 'observer.is_alive': opaque('alive'), 'observer.stop': noop, 'observer.join': noop, 'observer.start': noop})
+    sw = State(); sw.env = {'args': fresh('args'), 'observer': fresh('observer'), 'start_listen': fresh('start_listen')}; sw.ghost = {'starts': IntVal(0)}
+    def w_ret(s, v):
+        oblige(s, "run_worker/post: start() ran exactly once and ITS status (None on shutdown, -1 when the failure budget is exhausted) is what run_worker returns, on every path  [C18]", And(s.ghost['starts'] == 1, to_val(v) == STATUS), props=['C18'])
+        reach(s, "run_worker/reach@return")
+    def w_end(s): oblige(s, "run_worker/post: start() ran exactly once and ITS status (None on shutdown, -1 when the failure budget is exhausted) is what run_worker returns, on every path  [C18]", BoolVal(False), props=['C18'])
+    exw.block(RW.body[idx[0]:], sw, w_end, {'ret': w_ret, 'exc': lambda s, x: None})
+    oblige(State(), "run_worker/manager: exactly one manager is built  [C17/C18]", BoolVal(seenw['built'] == 1))
     return {'exits': dict(exits)}
